@@ -25,7 +25,8 @@ Routine bodies: `yield d`, yield a non-number (`hang`), `log`, `send`, `spawn r 
 `setTempo i x`, `setBeats i b`, `pause/resume/stop r` (no-ops on a routine not yet created), `wait/signal c`,
 `seed n` (a new generator object), `draw`, `pull r` (`r.next()` on a sub-stream routine from inside
 the body), `raise` (the body fails: logged by the clock, the routine is Done), `defer r c d`
-(`defer(func, d, clock)`: a one-shot function task).  `S.restart` = `main.reset()` + `reset()` of the routine
+(`defer(func, d, clock)`: a one-shot function task).  `save k r` / `restore k r`
+(read / assign the `rand_state` of routine r).  `S.restart` = `main.reset()` + `reset()` of the routine
 objects + a new play of the root.
 Core Lean only (loaded by the drivers of C05 and C10).
 -/
@@ -78,6 +79,8 @@ inductive Act where
   | pull (r : Nat)
   | raise
   | defer (r : Nat) (c : Clk) (d : Rat)
+  | save (k r : Nat)
+  | restore (k r : Nat)
 deriving Repr, DecidableEq, Inhabited
 
 /-- Trace events.  `secs` are logical seconds; `beats` are on the clock that woke the routine. -/
@@ -85,7 +88,7 @@ inductive Ev where
   | resume (r pc : Nat) (c : Clk) (beats secs : Rat)
   | log (r : Nat) (beats secs : Rat)
   | send (r b : Nat) (secs : Rat)
-  | draw (r gen idx : Nat)
+  | draw (r gen : Nat) (seed : Option Nat) (idx : Nat)
   | refused (r target : Nat)
 deriving Repr, DecidableEq
 
@@ -122,6 +125,8 @@ structure S where
   draws : Nat → Nat := fun _ => 0      -- per generator object: number of values drawn so far
   genSeed : Nat → Option Nat := fun _ => none   -- seed of a generator object (`none`: the main thread's)
   nextGen : Nat := 1             -- generator object 0 is the main thread's
+  saved : Nat → Option (Option Nat × Nat) := fun _ => none   -- `rand_state` values kept by the program:
+                                                            -- (seed of the stream, position in it)
   trace : List Ev := []          -- newest first
 
 instance : Inhabited S := ⟨{}⟩
@@ -223,7 +228,7 @@ def runSub (s : S) (r : Nat) : List Act → S
     | .seed n => runSub ((s.newGen n).setRt r { s.rts r with gen := s.nextGen }) r rest
     | .draw =>
       let g := (s.rts r).gen
-      runSub ({ s.emit (.draw r g (s.draws g)) with
+      runSub ({ s.emit (.draw r g (s.genSeed g) (s.draws g)) with
                 draws := fun j => if j = g then s.draws g + 1 else s.draws j }) r rest
     | _ => runSub s r rest
 
@@ -293,9 +298,25 @@ def runActs (s : S) (x : Ctx) : List Act → S
       runActs (s.add c (s.beatsNow c + d) r) x rest
     | .draw =>
       let g := (s.rts x.rid).gen
-      runActs ({ s.emit (.draw x.rid g (s.draws g)) with
+      runActs ({ s.emit (.draw x.rid g (s.genSeed g) (s.draws g)) with
                  draws := fun j => if j = g then s.draws g + 1 else s.draws j }) x rest
     | .pull r => runActs (s.pull x.rid r) x rest
+    | .save k r =>
+      -- `saved[k] = R[r].rand_state`: the state of r's OWN generator object, whoever reads it
+      if (s.rts r).created then
+        let g := (s.rts r).gen
+        runActs { s with saved := fun j => if j = k then some (s.genSeed g, s.draws g) else s.saved j } x rest
+      else runActs s x rest
+    | .restore k r =>
+      -- `R[r].rand_state = saved[k]`: r's generator OBJECT (shared with whoever holds it) continues from there
+      match s.saved k with
+      | some (sd, pos) =>
+        if (s.rts r).created then
+          let g := (s.rts r).gen
+          runActs { s with genSeed := fun j => if j = g then sd else s.genSeed j
+                           draws := fun j => if j = g then pos else s.draws j } x rest
+        else runActs s x rest
+      | none => runActs s x rest
 
 /-- Wake the routine of pending task `e` (already removed from `pend`): logical time := its
     scheduled time; Paused / Done routines raise (`PausedStream` / `StopStream`) and are dropped. -/
